@@ -151,7 +151,8 @@ def run_check(pid, mod, tier, seed, root, level, explanation, trusted_base, extr
         status = 1
     elif und or err:
         status = 2
-    n_obl = len(held) + len(viol) + len(und) + len(knownhits)
+    # obligations matched by a recorded known finding are reported separately (KNOWN-FINDING lines), not as discharged
+    n_obl = len(held) + len(viol) + len(und)
     stats = ctx.M.stats() if ctx is not None else {}
     distinct = len({(o['rule'], o['instance']) for o in (ctx.obligations if ctx else [])})
     cov = {
@@ -172,6 +173,7 @@ def run_check(pid, mod, tier, seed, root, level, explanation, trusted_base, extr
         'violations_detail': [{'rule': o['rule'], 'instance': o['instance'], 'where': o['where']} for o in viol],
         'undecided': [{'rule': o['rule'], 'instance': o['instance'], 'detail': str(o['detail'])[:300]} for o in und],
         'known_findings_matched': [k['key'] for _, k in knownhits],
+        'known_findings_excluded_from_obligations': len(knownhits),
         'notes': ctx.notes if ctx else [],
     }
     if st_result is not None:
